@@ -180,7 +180,9 @@ class Engine:
         self.enums = dict(ENUM_VARIANTS)
         if user_enums:
             self.enums.update(user_enums)
-        self.solver = z3.Solver()
+        import os as _os
+        _logic = _os.environ.get('MIRSYM_LOGIC')
+        self.solver = z3.SolverFor(_logic) if _logic else z3.Solver()
         self.stats = dict(paths=0, feas_queries=0, assert_queries=0, stmts=0, solver_s=0.0, infeasible=0, panics=0)
         self.builtins = {}
         self._rcache = {}
